@@ -1,5 +1,6 @@
 (* Pinned statements of C04 (generated once by tools/mkpins.py from coq/props/C04.v, then committed). *)
-From DV Require Import Model.Base Model.Parser Model.Header Proofs.Hoare Proofs.HeaderBits Proofs.SummaryBits props.C04.
+From DV Require Import Model.Base Model.Parser Model.Header Model.Readers Spec.NameSpec Proofs.Hoare Proofs.HeaderBits
+  Proofs.SummaryBits Proofs.ReadersLabels Proofs.QuestionSpec props.C04.
 Local Open Scope N_scope.
 Check (C04_flags_word : forall w x i, w < 65536 ->
   N.testbit (w_flags w x) i =
@@ -10,3 +11,19 @@ Check (C04_dnssec_bits : forall w x, w < 65536 ->
   f_dnssec (w_flags w x) =
   if N.testbit w 15 then N.testbit w 5 else N.testbit (match x with Some v => v | None => 0 end) 15).
 Print Assumptions C04_dnssec_bits.
+Check (C04_question_getters : forall p v, bytes_ok p -> parse p = Ok v ->
+  exists ls t, question_of p ls t CLASS_IN /\
+    let wire := wire_of_labels ls in
+    let v' := pp_with_cached v (Some (wire, t, CLASS_IN)) in
+    pp_question_raw0 v = Ok (v', Some (wire, t, CLASS_IN)) /\
+    pp_question_raw v = Ok (v', Some (labels_flat ls, t, CLASS_IN)) /\
+    pp_question v = Ok (Some (ascii_lowercase (dotted ls), t, CLASS_IN)) /\
+    pp_qtype_qclass v = Ok (Some (t, CLASS_IN)) /\
+    pp_question_raw0 v' = Ok (v', Some (wire, t, CLASS_IN)) /\
+    pp_question_raw v' = Ok (v', Some (labels_flat ls, t, CLASS_IN)) /\
+    pp_question v' = Ok (Some (ascii_lowercase (dotted ls), t, CLASS_IN)) /\
+    pp_qtype_qclass v' = Ok (Some (t, CLASS_IN))).
+Print Assumptions C04_question_getters.
+Check (C04_question_decoding_unique : forall p ls t c ls' t' c',
+  question_of p ls t c -> question_of p ls' t' c' -> ls = ls' /\ t = t' /\ c = c').
+Print Assumptions C04_question_decoding_unique.
